@@ -3,7 +3,7 @@ from __future__ import annotations
 
 from ..common import Check, drive, replay as _replay, uncps, cps, NPROC
 from ..serial import outcome
-from ..docs import rule_dict
+from ..docs import rule_dict, convert_via
 from ..backend import make_backend
 
 
@@ -11,8 +11,7 @@ def drive_case(case):
     from sigma.rule import SigmaRule
 
     def conv():
-        rule = SigmaRule.from_dict(rule_dict(case["doc"]))
-        return [cps(q) for q in make_backend(case["K"]).convert_rule(rule)]
+        return [cps(q) for q in convert_via(rule_dict(case["doc"]), make_backend(case["K"]), case["id"])]
 
     ret = outcome(conv)
     return {"id": case["id"], "doc": case["doc"], "K": case["K"], "ret": ret}
